@@ -21,19 +21,23 @@ MANIFEST = {
                   "every new chunk offset o satisfies S+h <= o and o + kept chunk bytes <= end of the new mdat, and every kept sample located "
                   "through the OUTPUT's tables (C09Spec S_offset_of/S_size) has the input's size and the input's bytes; h must equal the length of "
                   "the header written (8, C10_write_mdat) - C10_offsets_input_header_refuted shows the statement false for h = the input's 16-byte "
-                  "header. (4) C10_write_mdat: writeMdat on the lazily decoded input mdat writes an 8-byte header + exactly the bytes of the ranges. "
+                  "header. C10_output_readable: the shifted output tables are consistent and C09's trak_get_ranges (GetRangesForSampleInterval) on "
+                  "them returns for every kept sample the one range holding the input's bytes. C10_crop_to_time: the composed statement about "
+                  "crop_to_time = findTrakEnds -> fill -> cropStblChildren -> updateChunkOffsets (the function tied to cropMP4 by the virt "
+                  "correspondence): k = number of samples starting before the rescaled end time, all per-sample lists of the output are k-prefixes, "
+                  "offsets inside the new mdat, bytes preserved. (4) C10_write_mdat: writeMdat on the lazily decoded input mdat writes an 8-byte header + exactly the bytes of the ranges. "
                   "(5) C10_header_durations: whenever writeUptoMdat succeeds every tkhd duration is the new duration <= the original, mdhd is "
                   "untouched, every elst segment duration <= the original, and the new mvhd duration <= the original for a conforming input (mvhd "
                   "duration >= some tkhd duration); without that guard it is false (C10_mvhd_duration_refuted, known finding C10-F9). "
-                  "Explored only (correspondence + search): the composition findEndTime -> findTrakEnds -> ... -> writeMdat as one function "
-                  "(crop_mp4, tied to cropMP4 on virtual files incl. a 4 GiB one), and the whole binary on synthesized files (8/16-byte input mdat "
+                  "Explored only (correspondence + search): findEndTime's result feeding crop_to_time (crop_mp4, tied to cropMP4 on virtual files "
+                  "incl. a 4 GiB one; findEndTime itself is characterised separately), the wiring of writeUptoMdat/writeMdat after it, and the whole binary on synthesized files (8/16-byte input mdat "
                   "header, mdat before/after moov, free/skip/unknown boxes in between, stco/co64): every kept sample is read back through the "
                   "output's tables and compared byte by byte, every chunk checked to lie inside the new mdat.",
     "level_note": "Trusted: Coq kernel, extraction, OCaml/Go glue, hand transcription checked only differentially; the box ENCODING of the "
                   "output (moov/ftyp/free bytes and their total size S = sizeWithoutMdat) is not modelled: the theorems hold for any S bytes, and "
-                  "the whole-tool runs decode the real output; the end-to-end theorem is stated per track on the Coq-level composition of the "
-                  "modelled routines (S_offset_of of C09Spec on the output tables, consistent cropped tables) rather than through "
-                  "C09's trak_get_ranges on the shifted tables; writeMdat is proved for the lazy mdat mode the tool uses (non-empty payload, file "
+                  "the whole-tool runs decode the real output; hypotheses of the composed theorem: static_ok per track (consistent tables, "
+                  "track id != 0, chunk offsets in [1,2^62), chunks inside the file), positive stts deltas, end time inside every track, "
+                  "2^62 + 2*sample bytes < 2^64; writeMdat is proved for the lazy mdat mode the tool uses (non-empty payload, file "
                   "< 2^63 bytes, payload < 2^32-8).",
 }
 
